@@ -21,7 +21,8 @@ TECHNIQUE = ('fault injection with exhaustive enumeration of crash points '
              'pairs; oracle = uninterrupted run from the same pre-state')
 RULE = ('Family: project features {find_files, pkg_config(), install+test} x '
         'edit {add matching file, remove matching file, semantic build.bfg '
-        'edit, script raises, rule emission raises (duplicate target)} x '
+        'edit, script raises, script aborts with SystemExit(message / code), '
+        'rule emission raises (duplicate target)} x '
         '{make, ninja}.  Per pair every mutation event (open-for-write, '
         'close, remove, utime, makedirs, rename) of the regeneration is hit '
         'with every variant (before / trunc / partial / after / raise), '
